@@ -191,13 +191,16 @@ prop("C12", "exploration",
      "property-based testing (rapid) of SendBatch against a simulated cluster; oracle on the per-marker execution log "
      "of the servers",
      "Generated valid and invalid batches with retryable / non-retryable outcome scripts and concurrent batches; "
-     "rejection without sending, per-region order, at-most-once execution, no resend after success, exact send counts.",
+     "rejection without sending, per-region order, at-most-once execution, no resend after success, exact send counts; "
+     "batches grouped while a region of theirs is split (stale parent and fresh daughter in one batch).",
      "Trusted: the simulated cluster; faults are injected only before execution (never executed-then-lost, which would "
      "make re-execution legitimate).",
      [
          {"test": "TestC12_BatchExecution", "quick": {"checks": 5000, "shards": 4, "timeout": 300},
           "thorough": {"checks": 50000, "shards": 16, "timeout": 2400}},
          {"test": "TestC12_BatchExecution", "tag": "race", "thorough": {"checks": 4000, "shards": 4, "timeout": 3000, "race": True}},
+         {"test": "TestC12_StaleRegionInBatch", "quick": {"checks": 1500, "shards": 4, "timeout": 300},
+          "thorough": {"checks": 20000, "shards": 16, "timeout": 2400}},
      ],
      ["faults are injected before execution only"])
 
@@ -250,6 +253,8 @@ prop("C03", "fault_enumeration",
      [
          {"test": "TestC03_SenderRacesFailure", "quick": {"checks": 600, "shards": 4, "timeout": 300},
           "thorough": {"checks": 6000, "shards": 8, "timeout": 1500}},
+         {"test": "TestC03_SilentAfterAnswer", "quick": {"checks": 400, "shards": 2, "timeout": 300},
+          "thorough": {"checks": 4000, "shards": 4, "timeout": 1500}},
          {"test": "TestC03_ConnectionFailure", "quick": {"checks": 1500, "shards": 4, "timeout": 300},
           "thorough": {"checks": 15000, "shards": 16, "timeout": 2400}},
          {"test": "TestC03_ConnectionFailure", "tag": "race", "thorough": {"checks": 600, "shards": 4, "timeout": 3000, "race": True}},
